@@ -1,15 +1,18 @@
 (* C11 — No needless reloads: no-op resyncs and in-capacity endpoint changes stay dynamic;
    every reload leaves at least slots-min-free empty slots and a slot count multiple of the
-   slots increment. Statements only; every proof is one `exact`. *)
+   slots increment. Statements only; every proof is one `exact`. Model: Model/Dyn.v. *)
 From Coq Require Import List String ZArith.
-From HI Require Import Model.Dyn Proofs.Dyn_Base Proofs.Dyn_Pair.
+From HI Require Import Model.Dyn Proofs.Dyn_Base Proofs.Dyn_Pair Proofs.Dyn_Refine Proofs.Dyn_Step Proofs.Dyn_Noop.
 Import ListNotations.
 Open Scope string_scope.
 
-(* alignSlots (run on every backend whenever HAProxy is reloaded): for every previous slot list,
-   every slots-min-free and every slots-increment (zero and negative values included) the
-   backend ends with >= slots-min-free empty slots, a slot count that is a multiple of
-   max 1 slots-increment, and keeps the slots it had *)
+(* ---- every reload aligns the slots ---- *)
+
+(* alignSlots (run on every backend whenever dynUpdater.update returns false, i.e. whenever
+   HAProxy is reloaded): for every previous slot list, every slots-min-free and every
+   slots-increment (zero and negative values included) the backend ends with >= slots-min-free
+   empty slots, a slot count that is a multiple of max 1 slots-increment, and keeps the slots it
+   had; the added ones are empty and disabled *)
 Theorem C11_align_slots_post : forall b, b_dyn b = true ->
   let eps' := align_slots b in
   (b_minfree b <= Z.of_nat (count_empty eps'))%Z /\
@@ -18,9 +21,11 @@ Theorem C11_align_slots_post : forall b, b_dyn b = true ->
 Proof. exact align_slots_post. Qed.
 Print Assumptions C11_align_slots_post.
 
-(* full statement of "a change confined to the endpoints that fits in the existing slots is applied
-   without a reload" (dynamic scaling on, no label, no preserved cookie, no resolver, acceptable
-   socket answers): false of the code as repaired, which reloads when two endpoints share a target *)
+(* ---- a change confined to the endpoints that fits in the slots stays dynamic ---- *)
+
+(* full statement (dynamic scaling on, no blue/green label, no preserved cookie, no resolver,
+   acceptable socket answers, no more endpoints than slots): false of the code as repaired for
+   C02, which reloads when two endpoints of the backend share a target *)
 Theorem C11_in_capacity_no_reload_refuted : exists old cur resp,
   back_cfg_equal old cur = true /\
   (List.length (b_eps cur) <= List.length (b_eps old))%nat /\
@@ -31,9 +36,11 @@ Theorem C11_in_capacity_no_reload_refuted : exists old cur resp,
 Proof. exact in_capacity_no_reload_refuted. Qed.
 Print Assumptions C11_in_capacity_no_reload_refuted.
 
-(* ... and true under H = no two enabled endpoints of the old or of the new backend share a
-   target: for every slot layout left by earlier updates, the update is dynamic, and the slot
-   count is kept, so that the guarantee of C11_align_slots_post carries over to the next update *)
+(* true under H = no two enabled endpoints of the old or of the new backend share a target
+   (dup_target = false): for every slot layout left by earlier updates, every endpoint add /
+   remove / replace / readiness / weight change that fits is applied without a reload, without
+   an index out of range, and the backend keeps its slot count, so that the guarantee of
+   C11_align_slots_post (free slots, multiple of the increment) carries over to the next update *)
 Theorem C11_in_capacity_no_reload_under_H : forall old cur resp,
   back_cfg_equal old cur = true ->
   (List.length (b_eps cur) <= List.length (b_eps old))%nat ->
@@ -45,3 +52,57 @@ Theorem C11_in_capacity_no_reload_under_H : forall old cur resp,
   r_updated r = true /\ List.length (r_eps r) = List.length (b_eps old) /\ r_panic r = false.
 Proof. exact in_capacity_no_reload. Qed.
 Print Assumptions C11_in_capacity_no_reload_under_H.
+
+(* ---- re-notifying unchanged resources never reloads ---- *)
+
+(* a re-created backend with the configuration and the enabled endpoints of the loaded one
+   (noop_eps: same fields but the slot name and the lazily filled source address), whatever
+   slot layout the loaded one is in and whatever the socket would answer: no command, applied *)
+Theorem C11_noop_no_reload : forall old cur resp,
+  back_cfg_equal old cur = true -> b_dyn cur = true -> b_resolver cur = "" ->
+  dup_target (b_eps old) = false -> dup_target (b_eps cur) = false -> cur_enabled (b_eps cur) ->
+  noop_eps (b_eps old) (b_eps cur) ->
+  let r := check_backend_pair old cur resp in
+  r_updated r = true /\ r_cmds r = [] /\ List.length (r_eps r) = List.length (b_eps old).
+Proof. exact noop_no_reload. Qed.
+Print Assumptions C11_noop_no_reload.
+
+(* at the level of HAProxyUpdate: Shrink keeps the old object, or checkBackendPair does nothing *)
+Theorem C11_noop_backend_step : forall p old,
+  bp_old p = Some old ->
+  back_cfg_equal old (bp_cur p) = true -> b_dyn (bp_cur p) = true -> b_resolver (bp_cur p) = "" ->
+  dup_target (b_eps old) = false -> dup_target (b_eps (bp_cur p)) = false -> cur_enabled (b_eps (bp_cur p)) ->
+  noop_eps (b_eps old) (b_eps (bp_cur p)) ->
+  let r := backend_step true p in br_updated r = true /\ br_cmds r = [].
+Proof. exact noop_backend_step. Qed.
+Print Assumptions C11_noop_backend_step.
+
+(* dynamic scaling off, or DNS resolver: an identical endpoint list is no change *)
+Theorem C11_noop_static_no_reload : forall old cur resp,
+  back_cfg_equal old cur = true -> b_eps cur = b_eps old ->
+  (b_dyn cur = false \/ b_resolver cur <> "") ->
+  let r := check_backend_pair old cur resp in r_updated r = true /\ r_cmds r = [].
+Proof. exact noop_static_no_reload. Qed.
+Print Assumptions C11_noop_static_no_reload.
+
+(* the layout an applied update leaves is in the no-op relation with the backend just applied *)
+Theorem C11_noop_after_update : forall old cur resp,
+  cur_enabled (b_eps cur) -> b_resolver cur = "" ->
+  let r := check_backend_pair old cur resp in
+  r_updated r = true ->
+  noop_eps (r_eps r) (b_eps cur) /\ (dup_target (b_eps cur) = false -> dup_target (r_eps r) = false).
+Proof. exact noop_after_update. Qed.
+Print Assumptions C11_noop_after_update.
+
+(* histories of spurious events: k re-creations of the same backend, each checked against the
+   layout the previous one left, for every k and every socket behaviour: never a reload, never a
+   command, the slot count stays *)
+Theorem C11_noop_resync_history : forall k old cur resps,
+  back_cfg_equal old cur = true -> b_dyn cur = true -> b_resolver cur = "" ->
+  dup_target (b_eps old) = false -> dup_target (b_eps cur) = false -> cur_enabled (b_eps cur) ->
+  noop_eps (b_eps old) (b_eps cur) ->
+  let o := resync k old cur resps in
+  let r := check_backend_pair o cur (resps k) in
+  r_updated r = true /\ r_cmds r = [] /\ List.length (r_eps r) = List.length (b_eps old).
+Proof. exact noop_resync_history. Qed.
+Print Assumptions C11_noop_resync_history.
